@@ -171,6 +171,15 @@ def holdings (s : Ledger) (a : Nat) : Nat :=
 
 /-! ### finalisation (interpreter.rs `update_outputs`) and the initial free balances -/
 
+/-- balances.rs `RuntimeBalances::try_from(InitialBalances)` (called by `init_script`; `to_vm` then copies the values into
+    VM memory): the checked transaction's non-retryable balances with the retryable (message-data) amount
+    `checked_add`ed onto the base asset's entry (`entry(base).or_default()`); `none` = `ValidityError::BalanceOverflow`,
+    the VM refuses to initialise -/
+def runtimeFree (base : Nat) (nonRetryable : List (Nat × Nat)) (retry : Nat) : Option (Nat → Option Nat) :=
+  match checkedAdd ((nonRetryable.lookup base).getD 0) retry with
+  | none => none
+  | some v => some (fun a => if a = base then some v else nonRetryable.lookup a)
+
 /-- amount written into the change output for asset `a` -/
 def changeAmount (s : Ledger) (initial : Nat → Option Nat) (revert : Bool) (refund : Nat) (a : Nat) : Option Nat :=
   let src := if revert then initial a else s.free a
